@@ -1,5 +1,6 @@
 #include <symengine/add.h>
 #include <symengine/pow.h>
+#include <symengine/nan.h>
 #include <symengine/complex.h>
 #include <symengine/symengine_exception.h>
 #include <symengine/test_visitors.h>
@@ -431,7 +432,7 @@ RCP<const Basic> mul(const vec_basic &a)
 RCP<const Basic> div(const RCP<const Basic> &a, const RCP<const Basic> &b)
 {
     if (is_number_and_zero(*b)) {
-        if (is_number_and_zero(*a)) {
+        if (is_number_and_zero(*a) or is_a<NaN>(*a)) {
             return Nan;
         } else {
             return ComplexInf;
